@@ -95,12 +95,14 @@ Definition count (labels : list nat) (b : nat) : nat := count_occ Nat.eq_dec lab
     [shuffle]: None = shuffle=False; Some p = shuffle=True where p is the
     permutation RandomState(random_state).shuffle applies (new[i] = old[p[i]]).
     Result: None = ValueError; Some (warned, [(train, test); ...]). *)
+Definition block_ids (labels : list nat) (shuffle : option (list nat)) : list nat :=
+  match shuffle with None => usort labels | Some p => take (usort labels) p end.
+
 Definition block_kfold (labels : list nat) (n_splits : nat) (shuffle : option (list nat))
     (balance : bool) : option (bool * list (list nat * list nat)) :=
-  let ids0 := usort labels in
-  let nb := length ids0 in
+  let nb := length (usort labels) in
   if (n_splits <? 2) || (nb <? n_splits) then None else
-  let ids := match shuffle with None => ids0 | Some p => take ids0 p end in
+  let ids := block_ids labels shuffle in
   let kf := kfold nb n_splits in
   let wf :=
     if balance then
